@@ -319,7 +319,8 @@ def wireOctets (labels : List (List Nat)) : Nat := (labels.map (fun l => l.lengt
 
 def strBytes (s : String) : List Nat := s.toUTF8.toList.map (·.toNat)
 
-def handle : List String → String
+/-- one request op (`mtu …` / `req …`) -/
+def handleOne : List String → String
   | ["mtu", len, codec, multi] =>
     match len.toNat?, codec.toList with
     | some l, [c] =>
@@ -346,5 +347,31 @@ def handle : List String → String
         | .ok name labels r' => s!"ok {toHex name} {maxLabel labels} {wireOctets labels} {render r'}"
     | _, _ => "bad-op"
   | _ => "bad-op"
+
+/-! ### several requests at the same moment
+
+The server answers every query on its own goroutine; all of them go through the same codec singletons,
+command table and serializer values.  The model of the request path is a function of the one request, so
+the model of a batch processed concurrently — whatever the number of goroutines, the number of repetitions
+and the interleaving — is the list of the single results (`C09_batch_pointwise`).  The `dnsreq` component's
+`par` op drives the real code that way and compares. -/
+
+/-- split an op list at the separator token `;` -/
+def splitOps : List String → List (List String)
+  | [] => [[]]
+  | t :: rest =>
+    match splitOps rest with
+    | [] => [[t]]          -- unreachable: splitOps never returns []
+    | cur :: more => if t == ";" then [] :: cur :: more else (t :: cur) :: more
+
+/-- results of a batch: pointwise the results of the single ops -/
+def handleBatch (ops : List (List String)) : List String := ops.map handleOne
+
+def handle : List String → String
+  | "par" :: g :: iters :: rest =>
+    let ops := splitOps rest
+    if g.toNat?.isNone || iters.toNat?.isNone || ops.any (fun o => o.isEmpty || o.head? == some "par") then "bad-op"
+    else String.intercalate " ; " (handleBatch ops)
+  | ts => handleOne ts
 
 end SA.DnsReq
